@@ -3,7 +3,9 @@ package props
 import (
 	"bytes"
 	"fmt"
+	"github.com/robfig/soy/soymsg"
 	"os"
+	"sort"
 	"strings"
 	"testing"
 
@@ -134,6 +136,27 @@ func checkC04(c gen.ProgCase) Verdict {
 	// the same with a translation bundle (marked translations of every non-plural message)
 	if st.msgs > 0 {
 		msgs := identityBundle(cb)
+		if hashCase(c)%3 == 0 {
+			// a catalogue with holes: every other entry is empty (no parts at all, or an empty plural form)
+			var ids []uint64
+			for id := range msgs.msgs {
+				ids = append(ids, id)
+			}
+			sort.Slice(ids, func(i, j int) bool { return ids[i] < ids[j] })
+			for k, id := range ids {
+				m := msgs.msgs[id]
+				if k%2 == 1 {
+					continue
+				}
+				if len(m.Parts) == 1 {
+					if pp, isPl := m.Parts[0].(soymsg.PluralPart); isPl && len(pp.Cases) > 0 {
+						pp.Cases[len(pp.Cases)-1].Parts = nil
+						continue
+					}
+				}
+				m.Parts = nil
+			}
+		}
 		var gbuf bytes.Buffer
 		var gerr error
 		if p := catch(func() {
